@@ -32,7 +32,7 @@ ASSUMPTIONS = [
     "the alphabet's regex fragments cannot match whitespace, so 'exactly one word' is well defined",
     "reverse templates are compared for patterns without (?i) and '...' (documented for matching only)",
 ]
-BUDGET = {"quick": 60, "thorough": 900}
+BUDGET = {"quick": 150, "thorough": 900}
 
 BODY = ["a", "b", "ab", "*", "*/[ab]+/", "*/[0-9]+/"]
 TAILS = ["", "~", "..."]
